@@ -1,9 +1,10 @@
-from checks import rbc
+from checks import rbc, codec
 
 REGISTRY = {
     "C02": rbc.run,
     "C03": rbc.run,
     "C04": rbc.run,
+    "C13": codec.run,
 }
 
 RBC_NOTE = ("Trusted: Coq kernel + vm_compute; no axioms (Print Assumptions: closed under the global context). Premises in the "
@@ -27,7 +28,17 @@ META = {
                      "real instances and compared with the model and with the closed form."),
 }
 
+META["C13"] = dict(engine="codec",
+    note="Trusted: Coq kernel + vm_compute, no axioms. The codec model is hand-written and tied to the Go functions through verif "
+         "hooks on every run; SHA-256 and encoding/asn1 are not modelled (topic theorem = injectivity of the hashed bytes; ASN.1 glue "
+         "covered by real round trips only).",
+    text="Round-trip theorems for the ack, synchroniser and membership-topic encodings proved in Coq for every 16-bit identifier, "
+         "round 0..127, digest, tag and view; model tied to the code by differential evaluation on structured and malformed inputs; "
+         "in addition the implementation's own round trip is run exhaustively over all 65536 identifiers.")
+
 ENGINES = {
+    "codec": dict(path="coq/theories/Wire + harness/core/codec.go + checks/codec.py", props=["C13"],
+                  kind="Coq model of the wire codecs; Go harness calls the real encoders/decoders through verif hooks"),
     "rbc": dict(path="coq/theories/RBC + harness/core/rbc.go + checks/rbc.py", props=["C02", "C03", "C04"],
                 kind="Coq model of rbc.Receiver behind threshold.Scheme dispatch; Go harness drives real instances"),
 }
